@@ -62,6 +62,9 @@ func main() {
 			seed = v
 		}
 	}
+	if *prop == "all" {
+		os.Exit(runAll(*repo, *tier, *evid, *knownPath, seed))
+	}
 	d := registry[*prop]
 	if d == nil {
 		fmt.Fprintf(os.Stderr, "unknown property %q\n", *prop)
@@ -154,4 +157,71 @@ func (p *Prog) forbiddenImports() []string {
 	}
 	sort.Strings(bad)
 	return bad
+}
+
+// runAll: every registered property over ONE loaded program per configuration (used by the
+// patch tester: 19 properties in the time of one). evidDir receives <id>.json.
+func runAll(repo, tier, evidDir, knownPath string, seed int) int {
+	abs, _ := filepath.Abs(repo)
+	known, err := loadFindings(knownPath)
+	if err != nil {
+		fmt.Printf("VIOLATION property=all replay=- rule=analyser-failure detail=cannot read known findings: %v\n", err)
+		return 1
+	}
+	var ids []string
+	for k := range registry {
+		ids = append(ids, k)
+	}
+	sort.Strings(ids)
+	reports := map[string]*Report{}
+	for _, id := range ids {
+		reports[id] = newReport(id)
+	}
+	configs := []string{""}
+	if tier == "thorough" {
+		configs = append(configs, "mobile")
+	}
+	start := time.Now()
+	for _, tags := range configs {
+		p, err := loadProg(abs, tags, true)
+		for _, id := range ids {
+			r, d := reports[id], registry[id]
+			if err != nil {
+				r.Fail("analyser-failure", "load:"+tags, "-", "", "rule=load-failure: "+err.Error())
+				continue
+			}
+			r.Config = tags
+			if tags == "" {
+				r.Config = "default"
+			}
+			func() {
+				defer func() {
+					if e := recover(); e != nil {
+						r.Fail("analyser-failure", "panic", "-", "", fmt.Sprintf("rule=analyser-panic: %v", e))
+					}
+				}()
+				for _, rf := range d.Rules {
+					rf(p, r)
+				}
+				if tier == "thorough" {
+					for _, rf := range d.Thorough {
+						rf(p, r)
+					}
+				}
+				r.finishRules()
+			}()
+		}
+	}
+	exit := 0
+	for _, id := range ids {
+		ev := ""
+		if evidDir != "" {
+			os.MkdirAll(evidDir, 0o755)
+			ev = filepath.Join(evidDir, id+".json")
+		}
+		if reports[id].finish(registry[id].Meta, tier, seed, time.Since(start).Seconds(), map[string]interface{}{"mode": "all-properties-one-load"}, known, ev) != 0 {
+			exit = 1
+		}
+	}
+	return exit
 }
